@@ -197,10 +197,366 @@ fn enumerate(t: Tier) -> Box<dyn Iterator<Item = ExhCase>> {
     Box::new(super::c03::exh::enumerate(t).map(|c| ExhCase { text: c.text }))
 }
 
+// ---------------------------------------------------------------------------
+// LARGE-SCALE sub-check: text length, Occ rate k, run lengths / counts inside one counted stretch,
+// number of checkpoints and alphabet size across the ladder 255 .. 2^20 (see oracles/scale.rs).
+// Oracle: prefix-count tables over the BWT (bwt itself is checked against the text first).
+
+pub mod large {
+    use super::*;
+    use crate::c0306_ladder_labels;
+    use crate::fail;
+    use crate::oracles::scale::c0306::{self as sc, add_group, ladder, mix, Kind, LadderSub, Sent, Sm64, TextSpec};
+    use bio::data_structures::bwt::bwtfind;
+
+    pub const N_LABELS: [&str; 12] = c0306_ladder_labels!("n");
+    pub const K_LABELS: [&str; 12] = c0306_ladder_labels!("Occ rate k");
+    pub const CP_LABELS: [&str; 12] = c0306_ladder_labels!("checkpoints per symbol");
+    pub const RUN_LABELS: [&str; 12] = c0306_ladder_labels!("longest BWT run");
+    pub const CNT_LABELS: [&str; 12] = c0306_ladder_labels!("most occurrences counted in one stretch");
+
+    #[derive(Serialize, Deserialize, Debug, Clone)]
+    pub struct Case {
+        pub text: TextSpec,
+        /// Occ sampling rate, 1..=2n
+        pub k: u32,
+        /// symbols added to the alphabet handed to less / Occ
+        pub extra: B,
+        /// keep a `$` sentinel in that alphabet
+        pub with_sentinel: bool,
+        /// at most this many rows are queried (all rows when >= n), each for up to 8 symbols
+        pub budget: usize,
+        pub qseed: u64,
+    }
+
+    fn rows(c: &Case, n: usize) -> Vec<usize> {
+        if c.budget >= n {
+            return (0..n).collect();
+        }
+        let k = c.k as usize;
+        let mut q: Vec<usize> = Vec::new();
+        let mut rng = Sm64::new(c.qseed);
+        {
+            let mut add = |r: i64| {
+                if r >= 0 && (r as usize) < n {
+                    q.push(r as usize);
+                }
+            };
+            for r in [0i64, 1, 2, n as i64 - 3, n as i64 - 2, n as i64 - 1] {
+                add(r);
+            }
+            // checkpoint rows, rows next to them, and the rows around the "closer to the next checkpoint" switch
+            let blocks = n / k + 1;
+            let mut js: Vec<usize> = vec![0, 1, 2, blocks.saturating_sub(3), blocks.saturating_sub(2), blocks.saturating_sub(1), blocks];
+            for _ in 0..8 {
+                js.push(rng.below(blocks + 1));
+            }
+            for j in js {
+                let cp = (j * k) as i64;
+                for d in [-2i64, -1, 0, 1, 2] {
+                    add(cp + d);
+                    add(cp - (k / 2) as i64 + d);
+                    add(cp + (k / 2) as i64 + d);
+                }
+            }
+            for v in ladder(n) {
+                for d in [-1i64, 0, 1] {
+                    add(v as i64 + d);
+                }
+            }
+            for _ in 0..c.budget {
+                add(rng.below(n) as i64);
+            }
+        }
+        let mut seen = std::collections::HashSet::new();
+        q.retain(|r| seen.insert(*r));
+        q.truncate(c.budget);
+        q.sort_unstable();
+        q
+    }
+
+    pub fn check(c: &Case) -> R {
+        let Some(text) = c.text.build() else { fail!("harness: {:?} does not describe a text", c.text) };
+        ensure!(sa::in_domain(&text), "harness: text of {:?} is outside the domain", c.text);
+        let n = text.len();
+        let k = c.k as usize;
+        ensure!(k >= 1 && k <= 2 * n && c.budget >= 1, "harness: k={} outside 1..=2n for n={}", k, n);
+        let sentinel = text[n - 1];
+        let syms = sa::alphabet_for(&text, &c.extra, c.with_sentinel);
+        let alphabet = Alphabet::new(&syms);
+
+        let pos = suffix_array(&text);
+        // a wrong suffix array is C03's finding; everything below is stated relative to a correct one
+        let (t, m) = match sc::int_view(&text, &pos) {
+            Ok(x) => x,
+            Err(e) => fail!("suffix_array: text {:?}: {}", c.text, e),
+        };
+        if let Err(e) = sc::verify_sorted(&t, &pos) {
+            fail!("suffix_array: text {:?}: {}", c.text, e);
+        }
+        let single = m == 1;
+
+        // --- bwt
+        let b = bwt(&text, &pos);
+        ensure!(b.len() == n, "bwt: text {:?}: {} symbols, expected {}", c.text, b.len(), n);
+        for r in 0..n {
+            let want = text[(pos[r] + n - 1) % n];
+            ensure!(b[r] == want, "bwt: text {:?} = {}: bwt[{}]={:#04x}, the symbol before position {} is {:#04x}", c.text, show(&text), r, b[r], pos[r], want);
+        }
+
+        // --- less
+        let mut count = [0usize; 256];
+        for &ch in &text {
+            count[ch as usize] += 1;
+        }
+        let ls = less(&b, &alphabet);
+        let top = *syms.last().unwrap() as usize;
+        let mut need: Vec<usize> = syms.iter().map(|&a| a as usize).collect();
+        need.push(sentinel as usize);
+        if top < 255 {
+            need.push(top + 1);
+        }
+        for a in need {
+            ensure!(a < ls.len(), "less: text {:?} alphabet {}: no entry for symbol {:#04x} (table has {} entries)", c.text, show(&syms), a, ls.len());
+        }
+        let mut smaller = 0usize;
+        for ch in 0..ls.len() {
+            ensure!(ls[ch] == smaller, "less: text {:?} alphabet {}: less[{:#04x}]={} but {} text symbols are smaller", c.text, show(&syms), ch, ls[ch], smaller);
+            if ch < 256 {
+                smaller += count[ch];
+            }
+        }
+
+        // --- bwtfind: the stable-sort permutation of the BWT
+        let bf = bwtfind(&b, &alphabet);
+        ensure!(bf.len() == n, "bwtfind: text {:?}: {} entries, expected {}", c.text, bf.len(), n);
+        {
+            let mut next = [0usize; 256];
+            let mut acc = 0usize;
+            for ch in 0..256 {
+                next[ch] = acc;
+                acc += count[ch];
+            }
+            let mut want = vec![0usize; n];
+            for (r, &ch) in b.iter().enumerate() {
+                want[next[ch as usize]] = r;
+                next[ch as usize] += 1;
+            }
+            for i in 0..n {
+                ensure!(bf[i] == want[i], "bwtfind: text {:?} = {}: entry {} is {} but the {}-th symbol of the stably sorted BWT comes from row {}", c.text, show(&text), i, bf[i], i, want[i]);
+            }
+        }
+
+        // --- invert_bwt
+        if single {
+            let inv = invert_bwt(&b);
+            ensure!(inv == text, "invert_bwt: text {:?} = {}: inverse is {}", c.text, show(&text), show(&inv));
+        }
+
+        // --- Occ against prefix-count tables
+        let occ = Occ::new(&b, c.k, &alphabet);
+        let mut qs: Vec<u8> = vec![sentinel, syms[0], *syms.last().unwrap()];
+        let present: Vec<u8> = syms.iter().cloned().filter(|&a| count[a as usize] > 0 && a != sentinel).collect();
+        if let Some(&a) = present.iter().max_by_key(|&&a| count[a as usize]) {
+            qs.push(a);
+        }
+        if let Some(&a) = present.iter().min_by_key(|&&a| count[a as usize]) {
+            qs.push(a);
+        }
+        qs.extend(c.extra.iter().cloned().filter(|a| syms.contains(a)).take(2));
+        let mut rng = Sm64::new(mix(c.qseed, 77));
+        for _ in 0..2 {
+            qs.push(syms[rng.below(syms.len())]);
+        }
+        qs.sort_unstable();
+        qs.dedup();
+        let pre: Vec<Vec<u32>> = qs
+            .iter()
+            .map(|&a| {
+                let mut v = Vec::with_capacity(n + 1);
+                let mut acc = 0u32;
+                v.push(0);
+                for &x in &b {
+                    acc += (x == a) as u32;
+                    v.push(acc);
+                }
+                v
+            })
+            .collect();
+        let q = rows(c, n);
+        let mut most_counted = 0usize;
+        let (mut shortcut, mut bail, mut fwd_big) = (false, false, false);
+        for &r in &q {
+            for (qi, &a) in qs.iter().enumerate() {
+                let got = occ.get(&b, r, a);
+                let want = pre[qi][r + 1] as usize;
+                ensure!(
+                    got == want,
+                    "Occ: text {:?} = {} alphabet {} k={}: get(r={}, c={:#04x})={} but bwt[0..={}] contains it {} times",
+                    c.text, show(&text), show(&syms), k, r, a, got, r, want
+                );
+                // which path did this query take, and how many occurrences were counted in the stretch
+                let lo = r / k * k;
+                let hi = lo + k;
+                let counted = if k > 64 && hi < n {
+                    let between = (pre[qi][hi + 1] - pre[qi][lo + 1]) as usize;
+                    if between == 0 {
+                        bail = true;
+                        0
+                    } else if hi - r < k / 2 {
+                        shortcut = true;
+                        (pre[qi][hi + 1] - pre[qi][r + 1]) as usize
+                    } else {
+                        fwd_big = true;
+                        (pre[qi][r + 1] - pre[qi][lo + 1]) as usize
+                    }
+                } else {
+                    (pre[qi][r + 1] - pre[qi][lo + 1]) as usize
+                };
+                most_counted = most_counted.max(counted);
+            }
+        }
+
+        let mut run = 0usize;
+        let mut cur = 0usize;
+        for r in 0..n {
+            cur = if r > 0 && b[r] == b[r - 1] { cur + 1 } else { 1 };
+            run = run.max(cur);
+        }
+        let checkpoints = (n - 1) / k + 1;
+        let absent = syms.iter().any(|&a| count[a as usize] == 0);
+        let mut pass = Pass::new((k > 64 && shortcut) || absent);
+        add_group(&mut pass, &N_LABELS, n);
+        add_group(&mut pass, &K_LABELS, k);
+        add_group(&mut pass, &CP_LABELS, checkpoints);
+        add_group(&mut pass, &RUN_LABELS, run);
+        add_group(&mut pass, &CNT_LABELS, most_counted);
+        pass.add_if(most_counted > 255, ">255 occurrences counted in one stretch");
+        pass.add_if(most_counted > 2048, ">2048 occurrences counted in one stretch");
+        pass.add_if(most_counted > 65_535, ">65535 occurrences counted in one stretch");
+        pass.add_if(k > n, "k>n");
+        pass.add_if(k == 2 * n, "k=2n");
+        pass.add_if(k == 1, "k=1");
+        pass.add_if(k == 64 || k == 65, "k=64 or 65");
+        pass.add_if(k > 65_536 && k < n, "k>65536 with a second checkpoint");
+        pass.add_if(shortcut, "k>64: counted backwards from the next checkpoint");
+        pass.add_if(bail, "k>64: equal checkpoints, early return");
+        pass.add_if(fwd_big, "k>64: counted forwards");
+        pass.add_if(absent, "symbol absent from text");
+        pass.add_if(syms.len() >= 255, "alphabet of >=255 symbols");
+        pass.add_if(syms.contains(&255), "max symbol 0xff");
+        pass.add_if(!syms.contains(&sentinel), "alphabet without the $ sentinel");
+        pass.add_if(count.iter().any(|&x| x > 65_535), "a symbol occurs more than 65535 times");
+        pass.add_if(!single, "multi-sentinel");
+        pass.add_if(single, "single-sentinel (invert_bwt checked)");
+        pass.add_if(q.len() == n, "every row queried");
+        pass.add_if(q.len() < n, "rows sampled");
+        Ok(pass)
+    }
+
+    fn per_row(k: u32) -> u64 {
+        8 * (k as u64 / 48 + 15)
+    }
+
+    pub fn weight(c: &Case) -> u64 {
+        c.text.n as u64 * 4 + (c.budget.min(c.text.n) as u64) * per_row(c.k) / 20 + 2000
+    }
+
+    fn mk(text: TextSpec, k: usize, i: usize, seed: u64, effort: u64) -> Case {
+        let k = k.clamp(1, 2 * text.n) as u32;
+        let budget = ((effort / per_row(k)) as usize).clamp(200, 400_000);
+        let extra: Vec<u8> = match i % 4 {
+            0 => vec![],
+            1 => b"N".to_vec(),
+            2 => vec![0xff],
+            _ => vec![text.sentinel.saturating_add(7), 0xfe],
+        };
+        Case { text, k, extra: B(extra), with_sentinel: i % 2 == 0, budget, qseed: seed }
+    }
+
+    pub fn cases(t: Tier, seed: u64) -> Vec<Case> {
+        let mut v = Vec::new();
+        let reps = if t == Tier::Quick { 1 } else { 6 };
+        let effort: u64 = if t == Tier::Quick { 25_000_000 } else { 80_000_000 };
+        let dna = |kind: Kind, n: usize, sigma: u16, sent: Sent, s: u64| TextSpec { kind, n, sigma, sent, sentinel: b'$', dna: true, seed: s };
+        let bytes = |kind: Kind, n: usize, sigma: u16, sent: Sent, s: u64| TextSpec { kind, n, sigma, sent, sentinel: 0, dna: false, seed: s };
+        for rep in 0..reps {
+            let sd = |x: u64| mix(seed, 0xc04_0 + x * 1000 + rep as u64);
+            let mut i = 0usize;
+            // (1) text length ladder x a few rates (k=1: one checkpoint per row)
+            for (vi, &n) in ladder(1 << 21).iter().enumerate() {
+                let s = sd(vi as u64);
+                let huge = n > 131_073;
+                let mut texts = vec![dna(Kind::Random, n, 4, Sent::Single, s), dna(Kind::Homo, n, 1, Sent::Single, s)];
+                if !huge || t == Tier::Thorough {
+                    texts.push(dna(Kind::Period(2), n, 4, Sent::Single, s));
+                    texts.push(bytes(Kind::Random, n, 254, Sent::Single, s));
+                    texts.push(dna(Kind::Random, n, 4, Sent::Random(n / 200 + 1), s));
+                    texts.push(dna(Kind::Period(100), n, 4, Sent::Every(101), s));
+                    texts.push(dna(Kind::Fib, n, 2, Sent::Single, s));
+                }
+                for text in texts {
+                    i += 1;
+                    let small_alphabet = text.sigma <= 4;
+                    let ks: [usize; 4] = [if small_alphabet && n <= 131_073 { 1 } else { 2 + i % 5 }, [64, 65, 128][i % 3], n / 2 + 1, n + 1 + i % 7];
+                    let pick = if huge { vec![ks[1], ks[2]] } else { ks.to_vec() };
+                    for k in pick {
+                        v.push(mk(text.clone(), k, i, s, effort));
+                    }
+                }
+            }
+            // (2) Occ rate ladder; n a bit above 2k so that two full blocks exist; dense and random BWTs
+            for (vi, &k) in ladder(1 << 19).iter().enumerate() {
+                let s = sd(300 + vi as u64);
+                let n = 2 * k + 11;
+                let mut texts = vec![dna(Kind::Homo, n, 1, Sent::Single, s), dna(Kind::Random, n, 4, Sent::Single, s)];
+                if k <= 131_073 || t == Tier::Thorough {
+                    texts.push(dna(Kind::Period(2), n, 4, Sent::Single, s));
+                    texts.push(dna(Kind::Asc, n, 4, Sent::Single, s));
+                    texts.push(dna(Kind::Period(50), n, 4, Sent::Every(51), s));
+                    texts.push(bytes(Kind::Random, n, 254, Sent::Random(9), s));
+                }
+                for text in texts {
+                    i += 1;
+                    v.push(mk(text, k, i, s, effort));
+                }
+                // k just above n, and k = 2n
+                i += 1;
+                v.push(mk(dna(Kind::Homo, k - 1, 1, Sent::Single, s), k, i, s, effort));
+                i += 1;
+                v.push(mk(dna(Kind::Random, (k + 1) / 2, 4, Sent::Single, s), (k + 1) / 2 * 2, i, s, effort));
+            }
+        }
+        v
+    }
+
+    pub fn sub() -> LadderSub<Case> {
+        LadderSub {
+            name: "C04/large",
+            cases,
+            weight,
+            check,
+            shards_quick: 16,
+            shards_thorough: 16,
+            must_reach: &[
+                N_LABELS[0], N_LABELS[1], N_LABELS[2], N_LABELS[3], N_LABELS[4], N_LABELS[5], N_LABELS[6], N_LABELS[7], N_LABELS[8], N_LABELS[9], N_LABELS[10], N_LABELS[11],
+                K_LABELS[0], K_LABELS[1], K_LABELS[2], K_LABELS[3], K_LABELS[4], K_LABELS[5], K_LABELS[6], K_LABELS[7], K_LABELS[8], K_LABELS[9], K_LABELS[10],
+                CP_LABELS[0], CP_LABELS[1], CP_LABELS[2], CP_LABELS[3], CP_LABELS[4], CP_LABELS[5], CP_LABELS[6], CP_LABELS[7], CP_LABELS[8], CP_LABELS[9],
+                RUN_LABELS[0], RUN_LABELS[1], RUN_LABELS[2], RUN_LABELS[3], RUN_LABELS[4], RUN_LABELS[5], RUN_LABELS[6], RUN_LABELS[7], RUN_LABELS[8], RUN_LABELS[9], RUN_LABELS[10], RUN_LABELS[11],
+                ">255 occurrences counted in one stretch", ">2048 occurrences counted in one stretch", ">65535 occurrences counted in one stretch",
+                "k>n", "k=2n", "k=1", "k>65536 with a second checkpoint",
+                "k>64: counted backwards from the next checkpoint", "k>64: equal checkpoints, early return", "k>64: counted forwards",
+                "symbol absent from text", "alphabet of >=255 symbols", "max symbol 0xff", "alphabet without the $ sentinel",
+                "a symbol occurs more than 65535 times", "multi-sentinel", "every row queried", "rows sampled",
+            ],
+        }
+    }
+}
+
 pub fn property() -> Property {
     Property {
         id: "C04",
-        rule: "texts as in C03 (body + trailing sentinel $,!,#,0x00, interior sentinel occurrences 0/2/10/40 %, repetitive/structured/full-byte bodies, lengths <=19 / <=120 / <=400, thorough <=3000); alphabet = text symbols + random extra symbols, a `$` sentinel left out half of the time when a larger symbol exists; k in 1..=2n with k<=64, 65..=130, >130 and >n forced. Oracle: bwt[r] = symbol cyclically before sa[r] (sa from a naive suffix sort, and again for the library's array); less[c] = number of smaller text symbols for every index of the table (alphabet symbols, sentinel and max+1 must have an entry); Occ::get(r,c) = running count in bwt[0..=r] for every row r and every c in alphabet + sentinel; invert_bwt(bwt)==text for single-sentinel texts. Exhaustive: every text over {$,a,b} of body length <=8 (thorough 10) + final $, every k in 1..=2n, four alphabets. Non-trivial = k>64 and some query counted backwards from the next checkpoint, or an alphabet symbol absent from the text; distinct = distinct serialised case.",
+        rule: "texts as in C03 (body + trailing sentinel $,!,#,0x00, interior sentinel occurrences 0/2/10/40 %, repetitive/structured/full-byte bodies, lengths <=19 / <=120 / <=400, thorough <=3000); alphabet = text symbols + random extra symbols, a `$` sentinel left out half of the time when a larger symbol exists; k in 1..=2n with k<=64, 65..=130, >130 and >n forced. Oracle: bwt[r] = symbol cyclically before sa[r] (sa from a naive suffix sort, and again for the library's array); less[c] = number of smaller text symbols for every index of the table (alphabet symbols, sentinel and max+1 must have an entry); Occ::get(r,c) = running count in bwt[0..=r] for every row r and every c in alphabet + sentinel; invert_bwt(bwt)==text for single-sentinel texts. Exhaustive: every text over {$,a,b} of body length <=8 (thorough 10) + final $, every k in 1..=2n, four alphabets. Non-trivial = k>64 and some query counted backwards from the next checkpoint, or an alphabet symbol absent from the text; distinct = distinct serialised case. LARGE-SCALE (C04/large; enumerated parameter cases): text length, Occ rate k (up to 2^19, k>n, k=2n), checkpoints per symbol, longest BWT run and occurrences counted inside one stretch (>255, >2048, >65535), alphabets of 255+ symbols on the ladder 255..2^20+1; bwt against the text, less against symbol counts, bwtfind against a counting sort, invert_bwt, and Occ::get against prefix-count tables for every row or a budgeted selection (checkpoint rows +-2, the rows around the count-backwards switch, ladder rows, first/last, random) for up to 8 symbols.",
         assumptions: &[
             "texts are non-empty and end in their smallest symbol",
             "the alphabet contains every text symbol except possibly a `$` sentinel when a larger symbol is present (Occ::new adds `$` itself: the documented DNA-alphabet usage)",
@@ -229,6 +585,7 @@ pub fn property() -> Property {
                 watch: false,
             }),
             Box::new(ExhSub { name: "C04/exhaustive", enumerate, check: check_exh, must_reach: &["multi-sentinel", "symbol absent from text", "k>n"] }),
+            Box::new(large::sub()),
         ],
     }
 }
